@@ -107,8 +107,8 @@ MUTANTS = [
       anchor="def translate(self, vector, inplace=False):"),
     m("c13-rotate-inplace-degenerate", ["C13"], R, "            if not np.all(p2 - p1):\n", "            if False:\n"),
     m("c13-rotate-inplace-test-after-store", ["C13"], R,
-      "            self._pmin = np.minimum(p1, p2)\n            self._pmax = np.maximum(p1, p2)\n            self.units = units\n            return self\n",
-      "            self._pmin = np.minimum(p1, p2)\n            self._pmax = np.maximum(p1, p2)\n            self.units = units\n            if not np.all(p2 - p1):\n                raise ValueError('zero edge')\n            return self\n"),
+      "            if not np.all(p2 - p1):\n                raise ValueError(\n                    \"At least one of the region's edge lengths would be zero after\"\n                    f\" rotating about {reference_point=}.\"\n                )\n            self._pmin = np.minimum(p1, p2)\n            self._pmax = np.maximum(p1, p2)\n            self.units = units\n",
+      "            self._pmin = np.minimum(p1, p2)\n            self._pmax = np.maximum(p1, p2)\n            self.units = units\n            if not np.all(p2 - p1):\n                raise ValueError('zero edge')\n"),
 ]
 
 MUTANTS += [
@@ -246,7 +246,7 @@ MUTANTS += [
     m("c10-unit-not-decoded", ["C10"], H5, '        if unit == "None":\n            unit = None\n', ""),
     m("c10-vdims-sentinel-mismatch", ["C10"], H5, 'if isinstance(vdims, str) and vdims == "None":', 'if isinstance(vdims, str) and vdims == "none":'),
     m("c10-array-dtype-float", ["C10"], H5, '"array", data_shape, dtype=self.array.dtype', '"array", data_shape, dtype=float'),
-    m("c10-legacy-dim-kw", ["C10"], H5, "return cls(mesh, nvdim=dim, value=array[:])", "return cls(mesh, dim=dim, value=array[:])"),
+    m("c10-legacy-dim-kw", ["C10"], H5, "return cls(mesh, nvdim=dim, value=array[:], dtype=array.dtype)", "return cls(mesh, dim=dim, value=array[:], dtype=array.dtype)"),
     m("c10-legacy-never", ["C10"], H5, 'if "ubermag-hdf5-file-version" not in f.attrs:', 'if "ubermag-hdf5-file-version" in f.attrs and False:'),
     m("c10-load-no-vdims", ["C10"], H5, "            vdims=vdims,\n            unit=unit,", "            unit=unit,"),
     m("c10-key-mismatch", ["C10"], H5, 'value=h5_field["array"][data_location],', 'value=h5_field["data"][data_location],'),
@@ -442,6 +442,23 @@ MUTANTS += [
 ]
 
 MUTANTS += [
+    # pre-repair forms of AF21 / AF22
+    m("c02-line-points-rank1", ["C02"], LN, "points = np.array(points).reshape((len(points), -1))", "points = np.array(points)"),
+    m("c02-line-points-one-row", ["C02"], LN, "points = np.array(points).reshape((len(points), -1))", "points = np.array(points).reshape((1, -1))"),
+    m("c10-h5-reader-no-dtype", ["C10"], H5, '            dtype=h5_field["array"].dtype,\n', ""),
+    m("c10-h5-reader-other-dtype", ["C10"], H5, 'dtype=h5_field["array"].dtype,', 'dtype=h5_field["valid"].dtype,'),
+    m("c10-h5-legacy-no-dtype", ["C10"], H5, "value=array[:], dtype=array.dtype)", "value=array[:])"),
+    m("c13-mesh-scale-no-dry-run", ["C13"], M, "            for sr in self.subregions.values():\n                sr.scale(factor, reference_point=sr_ref)\n", ""),
+    m("c13-mesh-scale-dry-run-late", ["C13"], M,
+      "            for sr in self.subregions.values():\n                sr.scale(factor, reference_point=sr_ref)\n            self.region.scale(factor, inplace=True, reference_point=reference_point)\n",
+      "            self.region.scale(factor, inplace=True, reference_point=reference_point)\n            for sr in self.subregions.values():\n                sr.scale(factor, reference_point=sr_ref)\n"),
+    m("c13-mesh-translate-no-dry-run", ["C13"], M, "            for sr in self.subregions.values():\n                sr.translate(vector)\n", ""),
+    m("c13-mesh-rotate-no-dry-run", ["C13", "C12"], M,
+      "            for subregion in self.subregions.values():\n                subregion.rotate90(ax1=ax1, ax2=ax2, k=k, reference_point=reference_point)\n",
+      "            pass\n"),
+    m("c13-mesh-rotate-dry-run-other-step", ["C13", "C12"], M,
+      "                subregion.rotate90(ax1=ax1, ax2=ax2, k=k, reference_point=reference_point)\n",
+      "                subregion.rotate90(ax1=ax1, ax2=ax2, k=1, reference_point=reference_point)\n"),
     # ------------------------------------------------------------------ API-wide purity (C13)
     m("c13-rotate-copy-mutates-corner", ["C13"], R, 'p1 = self.pmin.copy().astype("float")', "p1 = self.pmin"),
     m("c13-integrate-scales-in-place", ["C13"], F, "tmp_array = self.array / 2", "tmp_array = self.array\n            tmp_array /= 2"),
